@@ -593,3 +593,52 @@ func (g *Gen) mulSubnormal(t tailSpec) (x, y d128.Decimal, ok bool) {
 	}
 	return mk(xn, xc, e1), mk(yn, yc, e2), true
 }
+
+// ---- every encoding of one (10^k * 10^-k, k = 0..34, both signs) through Pow's shortcut ladder ---------------------
+func (g *Gen) onesGrid(share float64) {
+	ys := []d128.Decimal{d128.Inf(1), d128.Inf(-1), d128.NaN(), mk(false, new(big.Int), 0), mk(false, big.NewInt(2), 0), mk(false, big.NewInt(5), -1),
+		mk(true, big.NewInt(1), 0), mk(false, big.NewInt(3), 0), mk(false, big.NewInt(1), 40)}
+	xs := []d128.Decimal{mk(false, big.NewInt(3), 0), mk(true, big.NewInt(2), 0), d128.Inf(1), d128.Inf(-1), d128.NaN(), mk(false, new(big.Int), 0), mk(true, new(big.Int), -5),
+		mk(false, big.NewInt(7), -1)}
+	g.gridRun(35*2, share, func(i int) {
+		k := i / 2
+		one := mk(i%2 == 1, pow10(k), -k)
+		for _, y := range ys {
+			g.pow(one, y, g.r.Intn(6), true)
+		}
+		for _, x := range xs {
+			g.pow(x, one, g.r.Intn(6), true)
+		}
+	})
+}
+
+// ---- an operand that vanishes during alignment: (digits of the large operand) x (digits of the small one) x (gap) ----
+// Add / Sub scale the larger operand up as far as the word size allows and then divide the smaller one down in steps
+// (10^8, 10^4, 10^3, 10, ...): in which step it disappears depends on its ENCODING, not on its value.
+func (g *Gen) vanishGrid(share float64, f func(x, y d128.Decimal)) {
+	nxs := []int{1, 2, 10, 19, 20, 34, 35}
+	nys := []int{1, 2, 3, 4, 5, 8, 9, 16, 19, 20}
+	const gapLo, gapHi = 30, 80
+	n := len(nxs) * len(nys) * (gapHi - gapLo + 1)
+	g.gridRun(n, share, func(i int) {
+		nx := nxs[i%len(nxs)]
+		i /= len(nxs)
+		ny := nys[i%len(nys)]
+		gap := gapLo + i/len(nys)
+		cx := randDigits(g.r, nx)
+		if nx == 35 {
+			cx = new(big.Int).Add(pow10(34), new(big.Int).Rand(g.r, new(big.Int).Sub(cMax, pow10(34))))
+		}
+		if g.r.Intn(3) == 0 {
+			cx = pow10(nx - 1)
+		}
+		cy := randDigits(g.r, ny)
+		ex := g.r.Intn(41) - 20
+		// gap between the LEADING digits: x = cx * 10^ex, y = cy * 10^ey with ey + ny = ex + nx - gap
+		ey := ex + nx - gap - ny
+		if ey < eMin {
+			return
+		}
+		f(mk(g.r.Intn(2) == 0, cx, ex), mk(g.r.Intn(2) == 0, cy, ey))
+	})
+}
